@@ -12,7 +12,7 @@ Code it is anchored in: {', '.join(p['anchors']['files'])}
 
 TASK: make ONE small, realistic change to the package's source in your worktree (the kind of slip a maintainer could make in a refactoring or a 'performance fix') that BREAKS this property, while
   (a) everything still imports/"compiles", and
-  (b) the existing test suite still passes: `cd /tmp/mut/{pid} && /venv/bin/python -m pytest -q -p no:cacheprovider --timeout=900 --continue-on-collection-errors -x -q compmech` must give the same result as on the unchanged tree (34 passed; the collection error for compmech/integrate/tests/test_integratev is pre-existing and expected). The full suite takes ~4-5 minutes; run at least the tests that touch the files you changed, and preferably all of it once at the end.
+  (b) the existing test suite still passes: `cd /tmp/mut/{pid} && /venv/bin/python -m pytest -q -p no:cacheprovider --timeout=900 --continue-on-collection-errors compmech` must give the same result as on the unchanged tree (34 passed; the collection error for compmech/integrate/tests/test_integratev is pre-existing and expected). The full suite takes ~4-5 minutes; run at least the tests that touch the files you changed, and preferably all of it once at the end.
 The change must need something SPECIFIC to manifest -- an unusual input (e.g. unsymmetric laminate, non-default flag, unequal panel sizes, particular ordering, a second stiffener, a particular sequence of solver outcomes, a multi-step sequence of calls, two cooperating sites that each look fine alone) -- not something ordinary use or the existing tests would expose at once. Do not add new files to the package, do not change tests, do not change the public API.
 
 Practical constraints of this sandbox: there is NO Cython and no network. Pure-Python files (*.py) can be changed freely and are the preferred place. `.pyx`/`.pxi`/`lib/src/*.c` files cannot be recompiled with Cython here; if (and only if) you want to change a `.pyx` kernel you must make the same change by hand in the Cython-generated `.c` file (copy it from the same path under /repo, it is git-ignored there) and rebuild that one extension with gcc against /root/.pyenv/versions/3.12.1/include/python3.12 and numpy's include dir so that the demonstration really runs the changed code -- this is allowed but costly (the panel-model extensions are 20 MB each); prefer Python-level changes unless the .pyx route is clearly more interesting and you are confident.
